@@ -12,26 +12,47 @@ import (
 
 func p(calls ...string) []string { return calls }
 
+func hd(capreq int, warp uint64, fill int, progs [][]string) header {
+	return header{capreq: capreq, warp: warp, fill: fill, progs: progs}
+}
+
+// provenance configurations (WAVE4 class 4): see header.prov
+func hdc(prov, pcap, pfill, capreq int, warp uint64, fill int, progs [][]string) header {
+	return header{capreq: capreq, warp: warp, fill: fill, progs: progs, prov: prov, pcap: pcap, pfill: pfill}
+}
+
 // DFS configurations: every schedule with ≤ 3 preemptions is executed.
 var quickDFS = []header{
-	{2, 0, 0, [][]string{p("u11"), p("o")}},
-	{2, 0, 1, [][]string{p("u11"), p("o"), p("l")}},
-	{2, 0, 0, [][]string{p("u11"), p("u21")}},
-	{2, 0, 2, [][]string{p("o"), p("o")}},
-	{2, 4294967295, 1, [][]string{p("u11", "o"), p("o", "u21")}},
-	{2, 0, 2, [][]string{p("u11", "o"), p("o", "u21")}},
-	{4, 4294967293, 3, [][]string{p("u11", "u12"), p("o", "o")}},
-	{2, 3, 1, [][]string{p("u11", "o"), p("u21", "o"), p("f", "e")}},
-	{4, 0, 0, [][]string{p("u11", "u12"), p("u21", "o"), p("o", "l")}},
-	{2, 4294967294, 1, [][]string{p("u11", "o"), p("o", "u21"), p("o", "u31")}},
+	hd(2, 0, 0, [][]string{p("u11"), p("o")}),
+	hd(2, 0, 1, [][]string{p("u11"), p("o"), p("l")}),
+	hd(2, 0, 0, [][]string{p("u11"), p("u21")}),
+	hd(2, 0, 2, [][]string{p("o"), p("o")}),
+	hd(2, 4294967295, 1, [][]string{p("u11", "o"), p("o", "u21")}),
+	hd(2, 0, 2, [][]string{p("u11", "o"), p("o", "u21")}),
+	hd(4, 4294967293, 3, [][]string{p("u11", "u12"), p("o", "o")}),
+	hd(2, 3, 1, [][]string{p("u11", "o"), p("u21", "o"), p("f", "e")}),
+	hd(4, 0, 0, [][]string{p("u11", "u12"), p("u21", "o"), p("o", "l")}),
+	hd(2, 4294967294, 1, [][]string{p("u11", "o"), p("o", "u21"), p("o", "u31")}),
+	// three-party windows (WAVE4 class 5): A stalls mid-operation (between its CAS and its
+	// store, or between its loads and its CAS), B overtakes / runs into A's claimed slot,
+	// C observes Len/IsEmpty/IsFull meanwhile
+	hd(2, 4294967295, 1, [][]string{p("u11"), p("o", "u21"), p("l", "f", "e")}),
+	hd(2, 0, 2, [][]string{p("o"), p("o", "u21"), p("e", "l", "f")}),
+	hd(4, 4294967294, 3, [][]string{p("o"), p("u11", "o"), p("f", "l")}),
+	// re-configuration (WAVE4 class 4): the ring under test is a struct copy of a used
+	// template that was then Init-ed to a smaller / equal capacity (the template must keep
+	// its elements), or the copy taken before its origin was re-initialised
+	hdc(1, 4, 3, 2, 0, 0, [][]string{p("u11", "o"), p("o", "u21")}),
+	hdc(1, 2, 2, 2, 0, 1, [][]string{p("u11"), p("o"), p("l")}),
+	hdc(2, 2, 0, 2, 4294967295, 2, [][]string{p("o", "u11"), p("o")}),
 }
 
 var thoroughDFS = []header{
-	{2, 4294967295, 1, [][]string{p("u11", "o"), p("u21", "o"), p("u31", "o")}},
-	{4, 4294967294, 2, [][]string{p("u11", "u12", "o"), p("o", "o", "u21"), p("l", "o", "f")}},
-	{2, 0, 0, [][]string{p("u11"), p("u21"), p("o"), p("o")}},
-	{8, 4294967290, 7, [][]string{p("o", "u11"), p("o", "u21"), p("u31", "l"), p("u41", "o")}},
-	{2, 4294967295, 2, [][]string{p("u11", "u12", "u13"), p("o", "o", "o"), p("o", "u31", "l"), p("e", "u41", "o")}},
+	hd(2, 4294967295, 1, [][]string{p("u11", "o"), p("u21", "o"), p("u31", "o")}),
+	hd(4, 4294967294, 2, [][]string{p("u11", "u12", "o"), p("o", "o", "u21"), p("l", "o", "f")}),
+	hd(2, 0, 0, [][]string{p("u11"), p("u21"), p("o"), p("o")}),
+	hd(8, 4294967290, 7, [][]string{p("o", "u11"), p("o", "u21"), p("u31", "l"), p("u41", "o")}),
+	hd(2, 4294967295, 2, [][]string{p("u11", "u12", "u13"), p("o", "o", "o"), p("o", "u31", "l"), p("e", "u41", "o")}),
 }
 
 // F12 (DESIGN §6): 32-bit ticket ABA.  Thread 0's Push loads tail = 0 and the free
@@ -82,6 +103,13 @@ func corpus() []core.Case {
 		// lines for finished / non-existent threads, pending calls at the end
 		{Tag: "corpus", Lines: []string{"@ C01 ring 2 0 1 T o T u9", "step 0", "step 5", "step 1", "step 0", "final", "step 0", "step 0", "step 0", "final"}},
 	}
+	// magnitude stream (WAVE3): capacities above 2^16 / 2^17 that are not powers of two —
+	// the rounding of Init decides the mask; three positions are enough to see slots alias
+	for _, cp := range []int{65537, 131073, 196608, 262146, 786432, 1000000} {
+		cases = append(cases,
+			core.Case{Tag: "large", Lines: []string{fmt.Sprintf("@ C01 ring %d 0 0 T u1 u2 u3 u4 T o o o o o", cp), "step 0", "step 0", "step 0", "step 0", "step 0", "step 1", "step 1", "step 0", "drain", "final"}},
+			core.Case{Tag: "large", Lines: []string{fmt.Sprintf("@ C01 ring %d 4294967294 3 T u7 o T o u8 T l f e", cp), "step 0", "step 1", "step 2", "step 1", "step 0", "drain", "final"}})
+	}
 	if wantF12() {
 		cases = append(cases, f12Witness)
 	}
@@ -125,6 +153,15 @@ func gen(r *core.Rand, tier string) core.Case {
 		h.warp = uint64(r.Intn(3 * capacity))
 	}
 	h.fill = r.Range(0, capacity)
+	switch r.Pick(70, 15, 15) {
+	case 1: // copy of a template, then Init with a smaller / equal / larger capacity
+		h.prov = 1
+		h.pcap = []int{1, 2, 3, 4, 4, 8, 8, 16}[r.Intn(8)]
+		h.pfill = r.Range(0, effCap(h.pcap))
+	case 2: // the copy kept while its origin is re-initialised
+		h.prov = 2
+		h.pcap = []int{1, 2, 3, 4, 8, 16}[r.Intn(6)]
+	}
 	total := 0
 	for t := 0; t < nthreads; t++ {
 		var prog []string
